@@ -250,6 +250,48 @@ def match_logic(c0: int, n0: bool, c1: int, n1: bool, canonical: bool, final: in
     return cfg.has_match_final()
 
 
+ENVVALS = ['plain', '100%h', '50%', 'a%%b', '%u', 'x${HOME}y']
+TOKENTEXT = ['${VF_ENV}/id', '${VF_ENV}/%h', '%h-${VF_ENV}', '%%${VF_ENV}', '${VF_ENV}${VF_ENV}', 'lit']
+
+
+def expand_order(ei: int, ti: int) -> bool:
+    """Percent-token and ${ENV} expansion of a client option (IdentityFile):
+    the text an environment variable contributes is inserted verbatim - it is
+    not scanned again for %tokens (and a value containing a stray % is not an
+    error) - exactly as a single left-to-right pass over the configured text
+    gives."""
+    import os as _os
+    envval = pick(ENVVALS, ei)
+    text = pick(TOKENTEXT, ti)
+    cfg = _client(host='target', user='u')
+    saved = _os.environ.get('VF_ENV')
+    _os.environ['VF_ENV'] = envval
+    try:
+        try:
+            _parse(cfg, [('f', 'IdentityFile %s\n' % text)])
+        except CF.ConfigParseError:
+            return False
+    finally:
+        if saved is None:
+            del _os.environ['VF_ENV']
+        else:
+            _os.environ['VF_ENV'] = saved
+    # reference: one pass over the configured text
+    out, i = '', 0
+    while i < len(text):
+        if text.startswith('${VF_ENV}', i):
+            out += envval
+            i += len('${VF_ENV}')
+        elif text[i] == '%':
+            out += {'h': 'target', '%': '%', 'u': 'local'}.get(text[i + 1], '?')
+            i += 2
+        else:
+            out += text[i]
+            i += 1
+    got = cfg.get('IdentityFile')
+    return got == [out]
+
+
 def setters(kind: int, first: int, second: int) -> bool:
     """first obtained value wins for scalar options; list options accumulate;
     'none' semantics"""
@@ -300,6 +342,9 @@ OBLIGATIONS = [
        shards=dict(c0=list(range(8))), timeout=200,
        functions=[CF.SSHConfig._match, CF.SSHClientConfig._match_val],
        bounds='Match with two criteria from 8 forms, each negated or not, canonical flag, final pass {not yet requested, no, yes}, 2 hosts x 2 users, optionally followed by an unknown criterion or one without its pattern'),
+    Ob('expand_order', expand_order, sym=dict(ei=R(0, 5), ti=R(0, 5)), timeout=150,
+       functions=[CF.SSHConfig._expand_val, CF.SSHConfig._expand_token, CF.SSHConfig._expand_env],
+       bounds='IdentityFile with 6 texts mixing %h / %% / ${VF_ENV} x 6 environment values (plain, containing %h, a stray %, %%, %u, ${HOME})'),
     Ob('setters', setters, sym=dict(kind=R(0, 3), first=R(0, 4), second=R(0, 4)), timeout=150,
        functions=[CF.SSHConfig._set_bool, CF.SSHConfig._set_int, CF.SSHConfig._set_string, CF.SSHConfig._append_string_list],
        bounds='4 option kinds x two successive values from {yes,no,7,none,abc}'),
